@@ -364,6 +364,15 @@ func run(c Case) hx.Verdict {
 			return hx.Fail("error-lost", "appended error %v is not in Errors() (%d errors held, %d appended)", e, len(got), len(appended))
 		}
 	}
+	// ... and by Err(): its text lists every retained error
+	if ee := target.Err(); ee != nil && len(appended) > 0 {
+		txt := ee.Error()
+		for _, e := range appended {
+			if !strings.Contains(txt, e.Error()) {
+				return hx.Fail("err-accessor", "Err() does not report the appended error %v although Errors() holds it (%d errors held)", e, len(got))
+			}
+		}
+	}
 	ncancel := 0
 	for _, g := range got {
 		if errors.Is(g, context.Canceled) {
